@@ -63,6 +63,9 @@ fn programs(entry: Entry) -> Vec<(&'static str, Vec<Op>)> {
     v.push(("delayed_send_observed", vec![Op::Call { slot: 0, script: vec![PStep::DelayedSend(1)], cancel: None }, Op::AwaitLog { tag: 1, what: 1, count: 1 }, call(0), Op::Stop { slot: 0 }, Op::Await { slot: 0, by_ref: false }]));
     v.push(("interval_observed", vec![Op::Call { slot: 0, script: vec![PStep::Interval(1)], cancel: None }, Op::AwaitLog { tag: 1, what: 1, count: 3 }, call(0), Op::Stop { slot: 0 }, Op::Await { slot: 0, by_ref: false }]));
     v.push(("delayed_exec_observed", vec![Op::Call { slot: 0, script: vec![PStep::DelayedExec(1)], cancel: None }, Op::AwaitLog { tag: 1, what: 2, count: 1 }, Op::Ping { slot: 0, cancel: None }, Op::Stop { slot: 0 }, Op::Await { slot: 0, by_ref: false }]));
+    // an interval's first tick comes one full period after it was requested - not at once: a one-shot timer with a
+    // fraction of that delay, requested right after it, is delivered first (20 ms against 300 ms: far apart even on a loaded machine)
+    v.push(("first_tick_order", vec![Op::Call { slot: 0, script: vec![PStep::Interval(300), PStep::DelayedSend(20)], cancel: None }, Op::AwaitLog { tag: 1, what: 1, count: 2 }, call(0), Op::Stop { slot: 0 }, Op::Await { slot: 0, by_ref: false }]));
     v.push(("weak_handles", vec![Op::Downgrade { slot: 0 }, Op::ToWeakSender { slot: 0 }, Op::ToCaller { slot: 0 }, Op::Upgrade { slot: 2 }, Op::Upgrade { slot: 3 }, Op::Call { slot: 4, script: vec![], cancel: None }, Op::Stop { slot: 2 }, Op::Await { slot: 0, by_ref: false }, Op::Upgrade { slot: 2 }]));
     if !stream {
         v.push(("restart_then_call", vec![call(0), Op::Restart { slot: 0 }, call(0), Op::Send { slot: 0, script: vec![PStep::CtxRestart], cancel: None }, Op::Ping { slot: 0, cancel: None }, call(0), Op::Stop { slot: 0 }, Op::Await { slot: 0, by_ref: false }]));
@@ -271,8 +274,29 @@ fn record(evs: &[log::Ev], watchdog: bool) -> String {
             _ => {}
         }
     }
+    // which timer delivered first (by kind): a one-shot with a short delay comes before the first tick of an interval
+    // with a long period on every runtime (only recorded when the two are far apart: see the cell `first_tick_order`)
+    let mut kind_of: std::collections::HashMap<Uid, &'static str> = Default::default();
+    let mut first_order: Vec<&'static str> = vec![];
+    let mut seen: std::collections::HashSet<Uid> = Default::default();
+    for e in evs {
+        match &e.k {
+            K::TimerReg { id, kind, .. } => {
+                kind_of.insert(*id, kind);
+            }
+            K::HIn { mk: Mk::Tick, msg, .. } => {
+                if seen.insert(*msg) {
+                    if let Some(k) = kind_of.get(msg) {
+                        first_order.push(k);
+                    }
+                }
+            }
+            _ => {}
+        }
+    }
+    let first_order = if first_order.len() >= 2 && first_order.contains(&"delayed_send") && first_order.contains(&"interval") { format!(", \"first_deliveries\": {:?}", first_order) } else { String::new() };
     let cbs: Vec<String> = tags.iter().map(|(t, (s, tick))| format!("tag{t}: {}{}", s.trim_end(), if *tick { " +ticks" } else { "" })).collect();
-    format!("{{\"ops\": [{}], \"callbacks\": [{}], \"watchdog\": {watchdog}}}", ops.iter().map(|o| jstr(o)).collect::<Vec<_>>().join(", "), cbs.iter().map(|o| jstr(o)).collect::<Vec<_>>().join(", "))
+    format!("{{\"ops\": [{}], \"callbacks\": [{}]{first_order}, \"watchdog\": {watchdog}}}", ops.iter().map(|o| jstr(o)).collect::<Vec<_>>().join(", "), cbs.iter().map(|o| jstr(o)).collect::<Vec<_>>().join(", "))
 }
 
 fn run_cell(cell: &Cell) -> (String, usize) {
